@@ -48,6 +48,7 @@ func (p *Processor) NotifyRecharge(ueId string, rg int32) {
 
 	// If it is previosly set to debit mode due to quota exhausted, need to reverse to the reserve mode
 	// (the rating type map and the notification URI are shared with the charging requests of the subscriber)
+	verifhook.At("recharge.locking", "ue", ue)
 	ue.CULock.Lock()
 	verifhook.At("recharge.locked", "ue", ue)
 	verifhook.At("recharge.write", "ue", ue)
@@ -174,6 +175,7 @@ func (p *Processor) ChargingDataCreate(
 		return nil, "", problemDetails
 	}
 
+	verifhook.At("create.locking", "ue", ue)
 	ue.CULock.Lock()
 	// released on every return path, including a panic recovered by the HTTP layer
 	defer ue.CULock.Unlock()
@@ -274,6 +276,7 @@ func (p *Processor) ChargingDataUpdate(
 		return nil, problemDetails
 	}
 
+	verifhook.At("update.locking", "ue", ue)
 	ue.CULock.Lock()
 	defer ue.CULock.Unlock()
 	verifhook.At("update.locked", "ue", ue)
@@ -415,6 +418,7 @@ func (p *Processor) ChargingDataRelease(
 		return problemDetails
 	}
 
+	verifhook.At("release.locking", "ue", ue)
 	ue.CULock.Lock()
 	defer ue.CULock.Unlock()
 	verifhook.At("release.locked", "ue", ue)
